@@ -3,6 +3,7 @@ CFG = {
         J("scaled", "c02-comp --aspect C02", imports="Base Stream Inst Run RunFsComp", shard=20),
         J("scaled", "c02", imports="Base Stream Inst Run RunFsComp RunFsStack RunHdr"),
         J("scaled", "c02-small", imports="Base Stream Inst Run RunHdr"),
+        J("scaled", "c02-src", imports="Base Stream Inst Run"),
         J("prod", "c02-small", imports="Base Stream Inst Run RunHdr"),
     ],
     "run_modules": ["RunFsComp", "RunFsStack", "RunHdr"],
@@ -54,3 +55,12 @@ CFG["explanation"] = CFG.get("explanation", "") + (" || whole archive (props/C02
                 "convert_to_archive (ArchiveSrc.failsafe_repair: streamed header read, load_config, fail-safe stack over the SAME source, repair) "
                 "returns UnexpectedEof (cut < 7), DeserializationError (cut inside the configuration) or the result C02_repair_cut_sound / "
                 "C02_repair_encrypted_cut_sound describe (or an exhibited tag collision on a wrapped key)")
+
+# round-3 seeds C02-m5 / C02-m6 / C14-m6: unusual but legal sources, archives and configuration orders
+CFG["rule"] += ("; c02-src (scaled): (a) prefixes (the intact archive and 13 / 39 random cuts of 6 / 24 archives, 4 layer combinations, both modes) delivered by a "
+                "source that serves reads of at most {1,2,3,7,13,100000} bytes and answers ErrorKind::Interrupted once at 1-3 read indices: the C02 clauses must hold "
+                "of the result; (b) EVERY cut of 3 / 12 layer-less archives whose file ids were rewritten (+1, +2^40+7, reversed), model-compared with repair_plain; "
+                "in every repair job the reader configuration is built alternately as keys-then-mode and mode-then-keys")
+CFG["explanation"] += (" || c02-src: the property quantifies over every prefix of every VALID archive, whoever wrote it (ids are opaque u64 in FORMAT.md) and however the "
+                       "source delivers it; an interrupted read either is retried by the caller (read_exact, read_to_end) or stops the reconstruction of the current file "
+                       "(ErrorInFile) - in both cases what was written must be a prefix, and a file not reported unfinished complete")
